@@ -60,6 +60,7 @@ type WCfg struct {
 	NoFlush   bool
 	Ext       int // 0 none, 1 MessageState not compressed, 2 MessageState compressed
 	PlainOnly bool
+	Ext2      int      // a second extension that sets RSV2 on every frame: 0 none, 1 attached after the message state, 2 before it
 	Extra     ws.State // further state bits the application carries in the same value (StateExtended, StateFragmented)
 }
 
@@ -73,7 +74,7 @@ func (c WCfg) State() ws.State {
 }
 
 func (c WCfg) String() string {
-	return fmt.Sprintf("%s(size=%d client=%v state+=%#x op=%d noFlush=%v ext=%d)", ctorNames[c.Ctor], c.Size, c.Client, uint8(c.Extra), c.Op, c.NoFlush, c.Ext)
+	return fmt.Sprintf("%s(size=%d client=%v state+=%#x op=%d noFlush=%v ext=%d ext2=%d)", ctorNames[c.Ctor], c.Size, c.Client, uint8(c.Extra), c.Op, c.NoFlush, c.Ext, c.Ext2)
 }
 
 // headerRoom is the RFC header length for a payload of n bytes.
@@ -120,6 +121,7 @@ func drawWCfg(r *eng.Run) WCfg {
 	}
 	c.NoFlush = r.T.Chance(sim.LCfg, 1, 5)
 	c.Ext = r.T.Int(sim.LCfg, 4) % 3
+	c.Ext2 = []int{0, 0, 0, 1, 2}[r.T.Int(sim.LCfg, 5)]
 	c.Extra = []ws.State{0, 0, ws.StateExtended, ws.StateFragmented, ws.StateExtended | ws.StateFragmented}[r.T.Int(sim.LCfg, 5)]
 	return c
 }
@@ -298,9 +300,34 @@ func applyOptions(w *wsutil.Writer, cfg WCfg) *wsflate.MessageState {
 	if cfg.Ext > 0 {
 		ms = &wsflate.MessageState{}
 		ms.SetCompressed(cfg.Ext == 2)
-		w.SetExtensions(ms)
+	}
+	if xs := cfg.extensions(ms); len(xs) > 0 {
+		w.SetExtensions(xs...)
 	}
 	return ms
+}
+
+// rsv2Ext is an application extension that marks every frame with RSV2.
+type rsv2Ext struct{}
+
+func (rsv2Ext) SetBits(h ws.Header) (ws.Header, error) {
+	h.Rsv |= 2
+	return h, nil
+}
+
+// extensions is the chain the configuration attaches (ms may be nil).
+func (c WCfg) extensions(ms *wsflate.MessageState) []wsutil.SendExtension {
+	var xs []wsutil.SendExtension
+	if c.Ext2 == 2 {
+		xs = append(xs, rsv2Ext{})
+	}
+	if ms != nil {
+		xs = append(xs, ms)
+	}
+	if c.Ext2 == 1 {
+		xs = append(xs, rsv2Ext{})
+	}
+	return xs
 }
 
 // ExecHistory runs ops on w, recording every return value. seed fixes the
@@ -354,7 +381,7 @@ func ExecHistory(r *eng.Run, wr *WRun, seed uint32, check func(step int)) {
 			ob.Err = w.Flush()
 		case WOpReattach:
 			if wr.MS != nil {
-				w.SetExtensions(wr.MS)
+				w.SetExtensions(wr.Cfg.extensions(wr.MS)...)
 			}
 		case WOpGrow:
 			w.Grow(op.N)
@@ -418,7 +445,7 @@ func C06(r *eng.Run) {
 		// pool hands out must be a well-behaved writer.
 		wsutil.PutWriter(wr.W)
 		cfg2 := cfg
-		cfg2.Client, cfg2.NoFlush, cfg2.Ext = r.T.Bool(sim.LSide), false, 0
+		cfg2.Client, cfg2.NoFlush, cfg2.Ext, cfg2.Ext2 = r.T.Bool(sim.LSide), false, 0, 0
 		if cfg2.Size < 7 {
 			cfg2.Size = 7 // smaller buffers cannot hold a client header (documented panic)
 		}
@@ -502,6 +529,9 @@ func c06Step(r *eng.Run, wr *WRun, tr *msgTrack, i int) {
 		wantRsv := byte(0)
 		if first && cfg.Ext == 2 {
 			wantRsv = 4
+		}
+		if cfg.Ext2 > 0 {
+			wantRsv |= 2 // every extension of the chain contributes its bits
 		}
 		if f.Rsv != wantRsv {
 			r.FailProp(rsvProp(cfg), "wrong_rsv", "after step %d %s: frame %d of the message has rsv=%d, expected %d (ext=%d)", i, op, tr.frames, f.Rsv, wantRsv, cfg.Ext)
